@@ -5,61 +5,82 @@
    (a channel table per network edge: `__channel_recv_*` in sim/builder.rs, sinktools::demux_map
    in production); the receiver drains its channels and tags what it decodes with the key of
    the channel it came from (many-to-one / many-to-many).  Serialization is the identity on
-   abstract payloads -- TLC is not asked to model bincode.  Model checked for every sequence of
-   <= MaxMsgs sends over all routes of NA senders and NB receivers, every delivery order. *)
+   abstract payloads -- TLC is not asked to model bincode.  Model checked for every topology
+   <<NA, NB, MaxMsgs>> in Topos (EQUAL and UNEQUAL cluster sizes), every sequence of <= MaxMsgs
+   sends over all routes of NA senders and NB receivers, every delivery order. *)
 EXTENDS Net, Sequences, TLC
 
-CONSTANTS NA, NB, MaxMsgs, Payloads
+CONSTANTS Topos, Payloads
+
+\* topologies <<|source cluster|, |destination cluster|, messages>> (cfg: Topos <- ToposQuick)
+ToposQuick == {<<2, 2, 3>>, <<2, 3, 2>>, <<3, 2, 2>>}
+ToposThorough == {<<2, 2, 3>>, <<2, 3, 3>>, <<3, 2, 3>>, <<1, 3, 3>>, <<3, 1, 3>>, <<2, 4, 2>>}
 
 VARIABLES
+    topo,       \* <<NA, NB, MaxMsgs>> of this behaviour
     chan,       \* chan[<<pat, src, dst>>]: FIFO of <<mid, payload>>
     nsent       \* messages sent so far
 
-ivars == <<chan, nsent>>
+ivars == <<topo, chan, nsent>>
+NA == topo[1]
+NB == topo[2]
+MaxMsgs == topo[3]
 vars == <<nvars, ivars>>
 
 As == 0..(NA - 1)
 Bs == 0..(NB - 1)
 Routes == {<<0, -1, b>> : b \in Bs} \cup {<<1, a, -1>> : a \in As}
           \cup {<<2, a, b>> : a \in As, b \in Bs} \cup {<<3, -1, b>> : b \in Bs}
-          \cup {<<4, -1, b>> : b \in Bs}
+          \cup {<<4, -1, b>> : b \in Bs} \cup {<<5, a, b>> : a \in As, b \in Bs}
+RoutesOf(t) == LET as == 0..(t[1] - 1)  bs == 0..(t[2] - 1)
+               IN {<<0, -1, b>> : b \in bs} \cup {<<1, a, -1>> : a \in as}
+                  \cup {<<2, a, b>> : a \in as, b \in bs} \cup {<<3, -1, b>> : b \in bs}
+                  \cup {<<4, -1, b>> : b \in bs} \cup {<<5, a, b>> : a \in as, b \in bs}
 
-Init == NInit /\ chan = [r \in Routes |-> <<>>] /\ nsent = 0
+Init == \E t \in Topos :
+          NInit /\ topo = t /\ chan = [r \in RoutesOf(t) |-> <<>>] /\ nsent = 0
 
 Msg(r, mid, p) == [pat |-> r[1], src |-> r[2], dst |-> r[3], mid |-> mid, p |-> <<mid, p>>]
 
 \* point-to-point patterns
 Send1(r, p) ==
-    /\ r[1] # 3 /\ nsent < MaxMsgs
+    /\ r \in Routes /\ r[1] \notin {3, 5} /\ nsent < MaxMsgs
     /\ NSend(Msg(r, nsent + 1, p))
     /\ chan' = [chan EXCEPT ![r] = Append(@, <<nsent + 1, p>>)]
     /\ nsent' = nsent + 1
+    /\ UNCHANGED topo
 
 \* broadcast_closed: one copy per member
-RECURSIVE SendAll(_, _)
-SendAll(n, ss) == IF ss = {} THEN n ELSE LET s == CHOOSE x \in ss : TRUE IN SendAll(SendStep(n, s), ss \ {s})
-
-Bcast(p) ==
-    /\ nsent < MaxMsgs
-    /\ net' = SendAll(net, {Msg(<<3, -1, b>>, nsent + 1, p) : b \in Bs})
-    /\ chan' = [r \in Routes |-> IF r[1] = 3 THEN Append(chan[r], <<nsent + 1, p>>) ELSE chan[r]]
+\* src = -1: from the process (pat 3); src = a: from cluster member a (pat 5).  The sender
+\* iterates over the DESTINATION cluster's member list.
+Bcast(pat, src, p) ==
+    /\ (src = -1 \/ src \in As) /\ nsent < MaxMsgs
+    /\ NBcast([pat |-> pat, src |-> src, mid |-> nsent + 1, p |-> <<nsent + 1, p>>], Bs)
+    /\ chan' = [r \in Routes |-> IF r[1] = pat /\ r[2] = src THEN Append(chan[r], <<nsent + 1, p>>) ELSE chan[r]]
     /\ nsent' = nsent + 1
+    /\ UNCHANGED topo
 
 \* the receiver of route r takes the head of its channel; the tag is the channel's key
 Deliver(r) ==
-    /\ chan[r] # <<>>
+    /\ r \in Routes /\ chan[r] # <<>>
     /\ LET h == Head(chan[r])
        IN NDeliver([pat |-> r[1], at |-> r[3], from |-> r[2], mid |-> h[1], p |-> <<h[1], h[2]>>])
     /\ chan' = [chan EXCEPT ![r] = Tail(@)]
-    /\ UNCHANGED nsent
+    /\ UNCHANGED <<nsent, topo>>
 
 Quiesce ==
     /\ \A r \in Routes : chan[r] = <<>>
     /\ NQuiesce
     /\ UNCHANGED ivars
 
-Next == (\E r \in Routes, p \in Payloads : Send1(r, p)) \/ (\E p \in Payloads : Bcast(p))
-        \/ (\E r \in Routes : Deliver(r)) \/ Quiesce
+\* constant-level supersets (so that TLC keeps Send1 / Deliver / Bcast as named actions)
+AllRoutes == UNION {RoutesOf(t) : t \in Topos}
+AllAs == UNION {0..(t[1] - 1) : t \in Topos}
+
+Next == (\E r \in AllRoutes, p \in Payloads : Send1(r, p))
+        \/ (\E p \in Payloads : Bcast(3, -1, p))
+        \/ (\E a \in AllAs, p \in Payloads : Bcast(5, a, p))
+        \/ (\E r \in AllRoutes : Deliver(r)) \/ Quiesce
 Spec == Init /\ [][Next]_vars
 
 Inv == C35Inv(net)
